@@ -174,7 +174,7 @@ pub fn specs(tier: &str, _prop: &str) -> Vec<ExpSpec> {
     let mut v = Vec::new();
     for ft in [FatType::Fat12, FatType::Fat16, FatType::Fat32] {
         let cfg = vol::tiny_with(ft, 8, 16);
-        v.push(ExpSpec::new(cfg.clone(), alpha::mixed(512), if th { 5 } else { 4 }));
+        v.push(ExpSpec::new(cfg.clone(), alpha::mixed(512), if th { 6 } else { 4 }));
         let mut c2 = cfg;
         c2.name = format!("{}-short", c2.name);
         c2.short = Short::Always;
